@@ -69,8 +69,8 @@ impl From<&serde_json::Value> for JsonShape {
                         }),
                         optional: false,
                     }
-                } else if values.len() == 1
-                    || values
+                } else if !values.is_empty()
+                    && values
                         .windows(2)
                         .map(|val| {
                             (
